@@ -60,55 +60,69 @@ func c02ArgsNormalised(ctx *core.Ctx, cc *CC) {
 		ctx.Unresolved("C02.R17", "GetServiceMethodTypes", "function not found")
 		return
 	}
-	// stores to Field.Modifier inside a nested loop whose range operand derives from .Arguments
+	// the loop over the argument fields that rewrites Modifier — in the function
+	// itself (nested in the loop over methods) or in a helper called from that loop
 	n := 0
-	ssax.Instrs(fn, func(in ssa.Instruction) {
-		st, ok := in.(*ssa.Store)
-		if !ok || fieldNameOfAddr(st.Addr) != "Modifier" || !inCycle(in) {
-			return
-		}
-		inner := loopHeaderOf(in.Block())
-		if inner == nil {
-			return
-		}
-		// what does the inner loop range over?
-		fromArgs := false
-		for _, x := range inner.Instrs {
-			_ = x
-		}
-		ssax.Instrs(fn, func(y ssa.Instruction) {
-			// a load of .Arguments anywhere feeding the ranged slice: the args struct is built as
-			// {Fields: method.Arguments}; identify the loop by the length/Index it walks
-			if ia, ok := y.(*ssa.IndexAddr); ok && y.Block() != nil && loopHeaderOf(y.Block()) == inner {
-				if dependsOnField(ia.X, "Arguments", fn, 0) {
-					fromArgs = true
-				}
+	detail := "for some methods (e.g. oneway ones) the `optional` arguments stay optional: the generated args struct writes such an argument only when IsSet — a value equal to the default, or an empty container, is left off the wire and the handler sees the zero value"
+	argsLoop := func(g *ssa.Function) (*ssa.BasicBlock, ssa.Instruction) {
+		var hdr *ssa.BasicBlock
+		var at ssa.Instruction
+		ssax.Instrs(g, func(in ssa.Instruction) {
+			st, ok := in.(*ssa.Store)
+			if !ok || fieldNameOfAddr(st.Addr) != "Modifier" || !inCycle(in) {
+				return
 			}
+			inner := loopHeaderOf(in.Block())
+			if inner == nil {
+				return
+			}
+			ssax.Instrs(g, func(y ssa.Instruction) {
+				if ia, ok := y.(*ssa.IndexAddr); ok && loopHeaderOf(y.Block()) == inner && dependsOnField(ia.X, "Arguments", g, 0) {
+					hdr, at = inner, in
+				}
+			})
 		})
-		if !fromArgs {
-			return
-		}
-		n++
-		// the inner header is reached on every trip of the enclosing loop
-		outer := loopHeaderOf(inner.Idom())
-		if outer == nil {
-			ctx.Undecided("C02.R17", QName(fn)+" › argument normalisation loop", cc.IPos(in), "the normalisation loop is not nested in the loop over methods")
-			return
-		}
-		isInner := func(x ssa.Instruction) bool { return x.Block() == inner }
+		return hdr, at
+	}
+	everyTripOf := func(g *ssa.Function, outer *ssa.BasicBlock, hit func(ssa.Instruction) bool) bool {
 		isOuter := func(x ssa.Instruction) bool { return x.Block() == outer && x == outer.Instrs[0] }
-		ok = true
 		for _, s := range outer.Succs {
-			if !blockReaches(s, outer) || len(s.Instrs) == 0 || isInner(s.Instrs[0]) {
+			if !blockReaches(s, outer) || len(s.Instrs) == 0 || hit(s.Instrs[0]) {
 				continue
 			}
-			if ssax.PathFrom(fn, s.Instrs[0], isOuter, isInner) != nil {
-				ok = false
+			if ssax.PathFrom(g, s.Instrs[0], isOuter, hit) != nil {
+				return false
 			}
 		}
-		ctx.Check(ok, "C02.R17", QName(fn)+sprintf(" › argument normalisation #%d is reached for every method", n), cc.IPos(in), "no path round the loop over methods avoids it",
-			"for some methods (e.g. oneway ones) the `optional` arguments stay optional: the generated args struct writes such an argument only when IsSet — a value equal to the default, or an empty container, is left off the wire and the handler sees the zero value")
-	})
+		return true
+	}
+	if inner, at := argsLoop(fn); inner != nil {
+		n++
+		outer := loopHeaderOf(inner.Idom())
+		if outer == nil {
+			ctx.Undecided("C02.R17", QName(fn)+" › argument normalisation loop", cc.IPos(at), "the normalisation loop is not nested in the loop over methods")
+		} else {
+			ok := everyTripOf(fn, outer, func(x ssa.Instruction) bool { return x.Block() == inner })
+			ctx.Check(ok, "C02.R17", QName(fn)+sprintf(" › argument normalisation #%d is reached for every method", n), cc.IPos(at), "no path round the loop over methods avoids it", detail)
+		}
+	}
+	for _, c := range ssax.Calls(fn) {
+		h := c.Static
+		if h == nil || h.Pkg != fn.Pkg || len(h.Blocks) == 0 {
+			continue
+		}
+		inner, at := argsLoop(h)
+		if inner == nil {
+			continue
+		}
+		n++
+		call := c.Instr.(ssa.Instruction)
+		outer := loopHeaderOf(call.Block())
+		// the helper reaches its loop on every path to a return, and is called on every trip
+		reaches := ssax.PathFrom(h, nil, ssax.IsReturn, func(x ssa.Instruction) bool { return x.Block() == inner }) == nil
+		ok := outer != nil && reaches && everyTripOf(fn, outer, func(x ssa.Instruction) bool { return x == call })
+		ctx.Check(ok, "C02.R17", QName(fn)+sprintf(" › argument normalisation #%d (in %s) is reached for every method", n, h.Name()), cc.IPos(at), "the helper is called on every trip of the loop over methods and always reaches its loop", detail)
+	}
 	if n == 0 {
 		ctx.Unresolved("C02.R17", "argument normalisation loop", "no loop over the argument fields rewrites Modifier")
 	}
